@@ -228,3 +228,50 @@ Example C16_example_negative_weight :
   (match read_yaml ex_decode gen_ammo_schema (ex_scn_yaml 1) with Ok _ => true | _ => false end) = true /\
   norm_res (read_hcl ex_decode gen_ammo_schema gen_hcl_root (ex_scn_hcl 1)) = norm_res (read_yaml ex_decode gen_ammo_schema (ex_scn_yaml 1)).
 Proof. vm_compute. repeat split; reflexivity. Qed.
+
+(* ---- format selection by file extension (config.go ReadAmmoConfig) ------------------------------------------------ *)
+
+(* Whatever precedes it, a name ending in .hcl is read by the HCL front-end and one ending in .yaml or .yml by the YAML
+   front-end (.yml is .yaml); the case of the letters does not matter. *)
+Theorem C16_format_by_extension :
+  forall n,
+    (format_of (n ++ ext_hcl) = Some FHcl /\ format_of (n ++ ext_yaml) = Some FYaml /\ format_of (n ++ ext_yml) = Some FYaml) /\
+    format_of (lower n) = format_of n.
+Proof. intro n. split; [exact (format_of_ext n) | exact (format_of_lower n)]. Qed.
+Print Assumptions C16_format_by_extension.
+
+(* A file that is read at all is read by one of the two front-ends, chosen by its name alone. *)
+Theorem C16_read_file_one_entry :
+  forall dv sch root name t hv r,
+    read_file dv sch root name t hv = Ok r ->
+    (format_of name = Some FHcl /\ read_hcl dv sch root hv = Ok r) \/
+    (format_of name = Some FYaml /\ read_yaml dv sch t = Ok r).
+Proof. exact read_file_cases. Qed.
+Print Assumptions C16_read_file_one_entry.
+
+Example C16_example_formats :
+  format_of [83;46;72;67;76] = Some FHcl /\                               (* S.HCL *)
+  format_of [97;46;104;99;108;47;98;46;89;109;108] = Some FYaml /\        (* a.hcl/b.Yml: the base name decides *)
+  format_of [97;46;104;99;108;46;116;120;116] = None /\                   (* a.hcl.txt *)
+  format_of [104;99;108] = None.                                          (* hcl *)
+Proof. vm_compute. repeat split; reflexivity. Qed.
+
+(* the constructor of assert/response (size: val >= 0, op one of six) sits inside the common decoder: a description
+   with `size { val = 1, op = "!=" }` is refused in both syntaxes, with op = "<" accepted by both *)
+Definition k_pp : str := [112;111;115;116;112;114;111;99;101;115;115;111;114;115].
+Definition k_headers : str := [104;101;97;100;101;114;115].
+Definition ex_size_yaml (op : str) : value :=
+  VMap [(k_requests, VList [VMap [(k_name, VStr [114]); (k_method, VStr s_get); (k_uri, VStr [47]); (k_headers, VMap []);
+          (k_pp, VList [VMap [(s_type, VStr s_assert_response); (k_size, VMap [(k_val, VInt 1); (k_op, VStr op)])]])]])].
+Definition ex_size_hcl (op : str) : list hval :=
+  [ HRs [];
+    HRs [[HS [114]; HS s_get; HS [47]; HM []; HAbsent; HAbsent; HAbsent;
+          HRs [[HS s_assert_response; HAbsent; HAbsent; HAbsent; HAbsent; HR [HI 1; HS op]]]; HAbsent]];
+    HRs []; HRs [] ].
+Example C16_example_assert_size :
+  read_yaml (with_ctor ex_decode) gen_ammo_schema (ex_size_yaml [33;61]) = Err ECtor /\
+  read_hcl (fun t => with_ctor ex_decode t) gen_ammo_schema gen_hcl_root (ex_size_hcl [33;61]) = Err ECtor /\
+  (match read_yaml (with_ctor ex_decode) gen_ammo_schema (ex_size_yaml [60]) with Ok _ => true | _ => false end) = true /\
+  norm_res (read_hcl (with_ctor ex_decode) gen_ammo_schema gen_hcl_root (ex_size_hcl [60])) =
+  norm_res (read_yaml (with_ctor ex_decode) gen_ammo_schema (ex_size_yaml [60])).
+Proof. vm_compute. repeat split; reflexivity. Qed.
